@@ -18,11 +18,19 @@ pub fn unix_time_unit_offset() -> u64 {
 
 #[inline]
 pub fn sleep_for_ms(ms: u64) {
+    #[cfg(sentinel_verif)]
+    if sentinel_verif_rt::clock::sleep_ns(ms.saturating_mul(1_000_000)) {
+        return;
+    }
     std::thread::sleep(std::time::Duration::from_millis(ms));
 }
 
 #[inline]
 pub fn sleep_for_ns(ns: u64) {
+    #[cfg(sentinel_verif)]
+    if sentinel_verif_rt::clock::sleep_ns(ns) {
+        return;
+    }
     std::thread::sleep(std::time::Duration::from_nanos(ns));
 }
 
@@ -57,6 +65,10 @@ pub fn format_time_nanos_curr() -> String {
 }
 
 pub fn curr_time_millis() -> u64 {
+    #[cfg(sentinel_verif)]
+    if let Some(ms) = sentinel_verif_rt::clock::now_ms() {
+        return ms;
+    }
     // todo: conditional compilation, `config::use_cache_time()`
     let ticker_time = curr_time_millis_with_ticker();
     if ticker_time > 0 {
@@ -68,6 +80,10 @@ pub fn curr_time_millis() -> u64 {
 
 #[inline]
 pub fn curr_time_nanos() -> i128 {
+    #[cfg(sentinel_verif)]
+    if let Some(ns) = sentinel_verif_rt::clock::now_ns() {
+        return ns as i128;
+    }
     OffsetDateTime::now_utc().unix_timestamp_nanos()
 }
 
